@@ -220,4 +220,29 @@ pub fn run(r: &mut Runner) {
             }
         });
     }
+    {
+        // generic stream: both operands with full-size mantissas in both words; the second operand's exponent is
+        // tied to the first one's (offsets -3..3) so that the words interact
+        let n: u64 = if quick { 3_000_000 } else { 300_000_000 };
+        r.notes.push(format!("generic stream: {} pairs from a fixed Weyl sequence (full 52-bit fractions in all four words, exponents over the whole claimed range, exponent offset -3..3)", n));
+        let chunk = 1u64 << 16;
+        r.par("generic stream (fixed Weyl sequence)", (n / chunk) as usize, n, |c, l| {
+            for i in (c as u64 * chunk)..((c as u64 + 1) * chunk) {
+                let a = match tfref::alpha::generic_dd(i, 52, -450 + 3, 449 - 3) {
+                    Some(a) => a,
+                    None => continue,
+                };
+                let ea = crate::grid::exp_of(a[0]);
+                let d = (i % 7) as i32 - 3;
+                let b = match tfref::alpha::generic_dd(i, 1000 + (i % 13), ea + d, ea + d) {
+                    Some(b) => b,
+                    None => continue,
+                };
+                for call in 0..5usize {
+                    let v = judge(call, a, b, Some(l));
+                    rec.record(l, (1u64 << 62) + i * 8 + call as u64, v);
+                }
+            }
+        });
+    }
 }
